@@ -153,6 +153,13 @@ def observe(tier, seed, want_cli=True, want_pool=True, cli_focus="all", pid="pip
             cfg = rec.new_cfg()
             run_cli(binary, rec, cfg, "p2", ["circle"], "Hard", 2, 2, extra, work, "circle", 1, verbose=v)
             stats["cli_invocations"] += 1
+        # steps so large that every proposal is clamped onto a limit: replicas that tie bit for bit
+        # in score while their states differ (the winner must not depend on the reduction tree)
+        cfg = rec.new_cfg()
+        for threads in (1, 16, 3, 5):
+            run_cli(binary, rec, cfg, "p1", ["polygon", "--sides", "4"], "Hard", 16, threads,
+                    ["--steps", "50", "--max-step-size", "1000000"], work, "polygon", 4)
+            stats["cli_invocations"] += 1
         # an option the program accepts and does not use
         cfg = rec.new_cfg()
         run_cli(binary, rec, cfg, "p2mm", ["circle"], "Hard", 2, 2, opt + ["--start-config", os.path.join(work, "no_such_file.json")], work, "circle", 1)
